@@ -807,6 +807,7 @@ class RewriteRuleSet:
                         old_outs=[_verif.tok(v, "v") for v in delta.match.outputs],
                         new_outs=[_verif.tok(v, "v") for v in delta.new_outputs],
                         new_inits=[_verif.tok(v, "v") for v in delta.new_initializers],
+                        new_init_names=[str(v.name) for v in delta.new_initializers],
                     )
 
                 count += 1
